@@ -9,6 +9,7 @@ import (
 	"github.com/contiv/libOpenflow/ofbase"
 
 	"vh/fw"
+	"vh/lib"
 	"vh/prng"
 )
 
@@ -103,6 +104,9 @@ func c19Seq(c *fw.Ctx, k int) {
 			o.v, o.v2 = r.Bits(64), r.Bits(64)
 		case 6:
 			o.raw = r.Bytes(r.Range(0, 40))
+			if r.Chance(1, 6) { // large raw writes too (a payload), also as the very first operation
+				o.raw = r.Bytes(r.Pick(511, 512, 513, 600, 2048, 4096))
+			}
 		}
 		ops[i] = o
 		fmt.Fprintf(&desc, "%d:%x:%x:%x;", o.kind, o.v, o.v2, o.raw)
@@ -137,7 +141,13 @@ func c19Seq(c *fw.Ctx, k int) {
 				e.PutChar(byte(o.v))
 				model = append(model, byte(o.v))
 			case 6:
-				e.Write(o.raw)
+				// the caller's slice is cut from a larger array (canary behind it) and is reused by the caller afterwards:
+				// the encoder must have copied it
+				mine := lib.Own(o.raw)
+				e.Write(mine)
+				for j := range mine {
+					mine[j] ^= 0xff
+				}
 				model = append(model, o.raw...)
 			case 7:
 				e.SkipAlign()
